@@ -7,7 +7,7 @@
    statement the class is refuted by witness and the theorem is proved on its complement (_partial).
    T_len_only: two views with the same bytes within the length (any capacities) give equal results.
    Only statements, each closed by [exact]; generated layout, proofs in Proofs/Views*.v. *)
-From PV Require Import Model.ViewsShow Spec.Views Proofs.ViewsBase Proofs.Views Proofs.Views2 Proofs.Views3 Proofs.ViewsLen.
+From PV Require Import Model.ViewsShow Spec.Views Proofs.ViewsBase Proofs.Views Proofs.Views2 Proofs.Views3 Proofs.Views4 Proofs.ViewsLen.
 Open Scope N_scope.
 
 Theorem C01_ARP_getters_safe : forall v, wf v -> bytes_ok (arr v) ->
@@ -210,6 +210,46 @@ Theorem C01_U880a_len_only : forall v v', wf v -> wf v' -> bytes_ok (arr v) -> b
 Proof. exact U880a_len_only. Qed.
 Print Assumptions C01_U880a_len_only.
 
+Theorem C01_RS_getters_safe : forall v, wf v -> bytes_ok (arr v) ->
+  RS_IsValid v = Ok true -> getters_ok [] RS_getters v.
+Proof. exact RS_safe. Qed.
+Print Assumptions C01_RS_getters_safe.
+Theorem C01_RS_len_only : forall v v', wf v -> wf v' -> bytes_ok (arr v) -> bytes_ok (arr v') ->
+  RS_IsValid v = Ok true -> RS_IsValid v' = Ok true -> view v = view v' ->
+  getters_len_only [] RS_getters RS_specs v v'.
+Proof. exact RS_len_only. Qed.
+Print Assumptions C01_RS_len_only.
+
+Theorem C01_R4_getters_safe : forall v, wf v -> bytes_ok (arr v) ->
+  R4_IsValid v = Ok true -> getters_ok [] R4_getters v.
+Proof. exact R4_safe. Qed.
+Print Assumptions C01_R4_getters_safe.
+Theorem C01_R4_len_only : forall v v', wf v -> wf v' -> bytes_ok (arr v) -> bytes_ok (arr v') ->
+  R4_IsValid v = Ok true -> R4_IsValid v' = Ok true -> view v = view v' ->
+  getters_len_only [] R4_getters R4_specs v v'.
+Proof. exact R4_len_only. Qed.
+Print Assumptions C01_R4_len_only.
+
+Theorem C01_LLC_getters_safe : forall v, wf v -> bytes_ok (arr v) ->
+  LLC_IsValid v = Ok true -> getters_ok [] LLC_getters v.
+Proof. exact LLC_safe. Qed.
+Print Assumptions C01_LLC_getters_safe.
+Theorem C01_LLC_len_only : forall v v', wf v -> wf v' -> bytes_ok (arr v) -> bytes_ok (arr v') ->
+  LLC_IsValid v = Ok true -> LLC_IsValid v' = Ok true -> view v = view v' ->
+  getters_len_only [] LLC_getters LLC_specs v v'.
+Proof. exact LLC_len_only. Qed.
+Print Assumptions C01_LLC_len_only.
+
+Theorem C01_LLDP_getters_safe : forall v, wf v -> bytes_ok (arr v) ->
+  LLDP_IsValid v = Ok true -> getters_ok [] LLDP_getters v.
+Proof. exact LLDP_safe. Qed.
+Print Assumptions C01_LLDP_getters_safe.
+Theorem C01_LLDP_len_only : forall v v', wf v -> wf v' -> bytes_ok (arr v) -> bytes_ok (arr v') ->
+  LLDP_IsValid v = Ok true -> LLDP_IsValid v' = Ok true -> view v = view v' ->
+  getters_len_only [] LLDP_getters LLDP_specs v v'.
+Proof. exact LLDP_len_only. Qed.
+Print Assumptions C01_LLDP_len_only.
+
 (* ---- the remaining refutation: Ether.Payload() of a header-only frame (DESIGN section 11 #8, recorded finding
    view-ether-payload-spare-capacity; documented encoder idiom, not repaired).  The other classes found by this
    check (IP4 #3 #4, TCP #5, LLC #6, LLDP #7, Ether.SrcIP/DstIP #8, ICMP4Redirect / RS #10) were repaired in /repo
@@ -244,3 +284,18 @@ Print Assumptions C01_UDP_nonvacuous.
 Example C01_ARP_nonvacuous : wf ex_arp /\ bytes_ok (arr ex_arp) /\ ARP_IsValid ex_arp = Ok true.
 Proof. exact ARP_valid_ex. Qed.
 Print Assumptions C01_ARP_nonvacuous.
+Example C01_LLDP_nonvacuous : wf ex_lldp /\ bytes_ok (arr ex_lldp) /\ LLDP_IsValid ex_lldp = Ok true /\
+  LLDP_ChassisID ex_lldp = Ok (VR 2 7) /\ LLDP_PortID ex_lldp = Ok (VR 11 3).
+Proof. exact LLDP_valid_ex. Qed.
+Print Assumptions C01_LLDP_nonvacuous.
+Example C01_RS_nonvacuous : wf ex_rs /\ bytes_ok (arr ex_rs) /\ RS_IsValid ex_rs = Ok true /\
+  RS_SourceLLA ex_rs = Ok (VR 10 6) /\ RS_Options ex_rs = Ok VU.
+Proof. exact RS_valid_ex. Qed.
+Print Assumptions C01_RS_nonvacuous.
+Example C01_LLC_nonvacuous : wf ex_llc /\ bytes_ok (arr ex_llc) /\ LLC_IsValid ex_llc = Ok true /\ LLC_Payload ex_llc = Ok VNil.
+Proof. exact LLC_valid_ex. Qed.
+Print Assumptions C01_LLC_nonvacuous.
+Example C01_R4_nonvacuous : wf ex_r4 /\ bytes_ok (arr ex_r4) /\ R4_IsValid ex_r4 = Ok true /\
+  R4_Addrs ex_r4 = Ok (VL [VR 8 4; VR 24 4]).
+Proof. exact R4_valid_ex. Qed.
+Print Assumptions C01_R4_nonvacuous.
